@@ -162,7 +162,9 @@ func c09Canon(o object.PanObject) string {
 
 // small key pool with non-scalar members so that duplicates occur inside one literal, between the literal and an
 // unpacked operand, and between two unpacked operands
-var c09KeyPool = []c09Val{{"1", "i1"}, {"'a", "sa"}, {"nil", "n"}, {"[1, 2]", "[i1;i2]"}, {"[]", "[]"}, {"{x: 1}", "{x=i1}"}, {"{}", "{}"}, {"1.0", "f1"}}
+var c09KeyPool = []c09Val{{"1", "i1"}, {"'a", "sa"}, {"nil", "n"}, {"[1, 2]", "[i1;i2]"}, {"[]", "[]"}, {"{x: 1}", "{x=i1}"}, {"{}", "{}"}, {"1.0", "f1"},
+	// keys that are == but hash differently (Bool is a descendant of Int)
+	{"true", "T"}, {"false", "F"}, {"0", "i0"}, {"[1, 0]", "[i1;i0]"}, {"[true, false]", "[T;F]"}, {"[true]", "[T]"}, {"[1]", "[i1]"}, {"[false]", "[F]"}, {"[0]", "[i0]"}, {"{x: true}", "{x=T}"}}
 
 func c09PoolMap(c *Ctx, depth int) c09Val {
 	ss, es := []string{}, []string{}
@@ -196,6 +198,31 @@ func genC09(c *Ctx) {
 	// does the same through Keys / PrivateKeys. NOTE the driver renders objects with all names sorted bytewise:
 	// `_` (0x5f) sorts before lowercase letters but after digits and uppercase — names are lowercase here, so private first.
 	for i := 0; i < n; i++ {
+		if i%5 == 4 {
+			// sources of ** stay what they were: x and y are bound to names, unpacked (first, second, with and without
+			// own pairs, into objects, maps and calls), then inspected again
+			x, y := c09Obj(c, 0, 4), c09Obj(c, 0, 4)
+			use := []string{"{**x, **y}", "{**y, **x}", "{q: 1, **x, **y}", "%{**x, **y}", "{|a: 0, b: 0| a}(**x, **y)", "{**x, **x, **y}", "%{1: 2, **y, **x}"}[c.Rng.Intn(7)]
+			pr := [][2]string{{"show", ""}, {"keysp", ".keys(private?: true)"}, {"itemsp", ".items(private?: true)"}}[c.Rng.Intn(3)]
+			if c.Rng.Bool() {
+				// the pair map itself (the cached key lists can be stale): index with a name, re-unpack
+				nm := c.Rng.Pick(c09Names)
+				pr = [2]string{"get s" + nm, "['" + nm + "]"}
+			}
+			which := []string{"x", "y"}[c.Rng.Intn(2)]
+			enc := map[string]string{"x": x.enc, "y": y.enc}[which]
+			src := "x := " + x.src + "\ny := " + y.src + "\nz := " + use + "\n" + which + pr[1]
+			if !c.Mine() {
+				continue
+			}
+			o := c.It.Run(src, "")
+			impl := o.Kind
+			if o.Kind == "val" || o.Kind == "err" {
+				impl = c09Canon(o.Obj)
+			}
+			c.Em.Emit(Rec{Case: fmt.Sprintf("C09 %s 0 %s", enc, pr[0]), Impl: impl, Src: src, NT: true, Tags: []string{"source-kept", pr[0]}})
+			continue
+		}
 		isMap := c.Rng.Bool()
 		var lit c09Val
 		if isMap {
